@@ -18,6 +18,7 @@ from ..entity_query_language.symbolic import (
     The,
     Variable,
     Literal,
+    Entity,
 )
 
 from .dao import get_dao_class
@@ -391,6 +392,11 @@ class EQLTranslator:
 
     def translate(self) -> None:
         """Translate the EQL query to SQL."""
+        if not isinstance(self.select_like, Entity):
+            raise UnsupportedQueryTypeError(
+                f"Only entity(...) queries can be translated, got {type(self.select_like)}"
+            )
+
         dao_class = get_dao_class(self.select_like.selected_variable._type_)
         if dao_class is None:
             raise MissingDAOError(
@@ -582,6 +588,13 @@ class EQLTranslator:
         else:
             target_dao, target_fk, anchor_fk = left_dao, left_fk, right_fk
 
+        if issubclass(target_dao, anchor_dao) or issubclass(anchor_dao, target_dao):
+            raise UnsupportedQueryTypeError(
+                f"Cannot join {anchor_dao.__name__} with {target_dao.__name__}: "
+                "a join of the selected class with itself (or with a class of its own "
+                "inheritance hierarchy) is not supported."
+            )
+
         if not self.join_manager.is_table_joined(target_dao):
             onclause = target_fk == anchor_fk
             self.sql_query = self.sql_query.join(target_dao, onclause=onclause)
@@ -606,6 +619,11 @@ class EQLTranslator:
         if isinstance(operand, Variable):
             extractor = DomainValueExtractor(self.session)
             return extractor.extract_from_variable(operand)
+
+        if isinstance(operand, SymbolicExpression):
+            raise UnsupportedQueryTypeError(
+                f"Unknown comparator operand type: {type(operand)}"
+            )
 
         return operand
 
